@@ -280,7 +280,7 @@ def part_a(ctx, drv, flavours):
 
 def exec_part_a(ctx, drv, exes, cases, add_sweep=True):
     total_dis = 0
-    heavy = None          # case lines that obtain > 256 MB in total (measured on the first, non-ASan, flavour)
+    heavy = None          # case lines that obtain > 16 MB in total (measured on the first, non-ASan, flavour)
     for fl, exe in exes.items():
         rc, out, err = sh2([exe], input=b"sizes\n", env=ENV, timeout=60)
         cfgline = out.decode().strip()
@@ -325,7 +325,7 @@ def exec_part_a(ctx, drv, exes, cases, add_sweep=True):
         if heavy is None and not fl.startswith("asan"):
             heavy = set()
             for i, (line, kind) in enumerate(mine):
-                if outs[i + 1] and sum(int(sz) for sz, rid in EV.findall(outs[i + 1]) if rid != "F") > (256 << 20):
+                if outs[i + 1] and sum(int(sz) for sz, rid in EV.findall(outs[i + 1]) if rid != "F") > (16 << 20):
                     heavy.add(line)
         for i, (line, kind) in enumerate(mine):
             impl = outs[i + 1]
